@@ -15,6 +15,8 @@ import Tahoe.Http.Client
                                                         (<rtw> as in DrvText, with `:` inside it not allowed)
     errors: err:<code> (ClientException) | clienterror (ValueError/AssertionError before anything is sent)
   read <hex data> <off> <len>      → `httpRead` on a share holding <data>: data:<hex> | err:<code> | clienterror
+  readmissing <off> <len>          → `httpReadOpt` on a missing share
+  zeromode                         → the generated zero-length read variant: raise | empty | probe
   range <units> <ranges|N> <hex>   → `readRange` decision for a parsed Range header on a share: <status>[:<start>-<stop>:<hex>]
   rtwrt <rtw>                      → `decRtw (encRtw a)` printed back in the same syntax | invalid
 -/
@@ -84,8 +86,13 @@ def handle : List String → String
     | some (outs, st) => " ".intercalate outs ++ " || " ++ showState st
   | ["read", d, off, len] =>
     match bytesOfHex d, off.toNat?, len.toNat? with
-    | some data, some o, some l => showClientRead (httpRead data o l)
+    | some data, some o, some l => showClientRead (httpRead zeroRead data o l)
     | _, _, _ => "bad-op"
+  | ["readmissing", off, len] =>
+    match off.toNat?, len.toNat? with
+    | some o, some l => showClientRead (httpReadOpt zeroRead none o l)
+    | _, _ => "bad-op"
+  | ["zeromode"] => Tahoe.Generated.Http.zeroLengthRead
   | ["range", units, rs, d] =>
     match bytesOfHex d with
     | none => "bad-op"
